@@ -181,3 +181,45 @@ def all_bases(sig_pqr, start_index=None):
                 basis.extend(g)
             out.append(basis)
     return out
+
+
+def random_cfg(rng: random.Random, d=None, options=True):
+    """
+    A random algebra configuration drawn over ALL construction axes at once: (p,q,r) / explicit signature
+    ordering / custom basis, start index (incl. hex-letter generator names), and - if ``options`` - cse,
+    wrapper kind, codegen symbol class, derivation with dataclasses.replace.  Returns (cfg, d).
+    """
+    d = d or rng.choice((1, 2, 2, 3, 3, 3, 4))
+    sig = [rng.choice((1, 1, -1, 0)) for _ in range(d)]
+    p, q, r = sig.count(1), sig.count(-1), sig.count(0)
+    mode = rng.choice(['pqr', 'pqr', 'signature', 'basis'])
+    if mode == 'pqr':
+        cfg = dict(p=p, q=q, r=r)
+    elif mode == 'signature':
+        cfg = dict(signature=sig)
+    else:
+        # (custom bases must use decimal digits as generator names: the constructor reads int(min(names)))
+        cfg = dict(p=p, q=q, r=r, basis=random_basis((p, q, r), rng, start_index=rng.choice([s for s in (0, 1, 1, 2, 5) if s + d - 1 <= 9])))
+    if mode != 'basis' and rng.random() < 0.4:
+        cfg['start_index'] = rng.choice([s for s in (0, 1, 2, 5, 10, 11, 12) if s + d - 1 <= 15])
+    if options:
+        if rng.random() < 0.2:
+            cfg['cse'] = False
+        if rng.random() < 0.25:
+            cfg['wrapper'] = rng.choice(['identity', 'wraps', 'closure'])
+        if rng.random() < 0.12:
+            cfg['symbolcls'] = 'sympy'
+        if mode != 'basis' and rng.random() < 0.1:
+            cfg['derive'] = rng.choice([dict(cse=False), dict(signature=[rng.choice((1, -1, 0)) for _ in range(d)])])
+    return cfg, d
+
+
+def random_pattern(rng: random.Random, d, max_len=5, allow_empty=True):
+    N = 2 ** d
+    if allow_empty and rng.random() < 0.06:
+        return ()
+    n = rng.randint(1, min(N, max_len))
+    ks = rng.sample(range(N), n)
+    if rng.random() < 0.5:
+        ks.sort()
+    return tuple(ks)
